@@ -34,9 +34,16 @@ class Sink:
         self.data += b
 
 
-def encode(world, server, code, lines, mode):
+def encode(world, server, code, lines, mode, container=None):
     sink = Sink()
-    world.run(server.write_response(sink, code, list(lines) if len(lines) > 1 else lines[0], mode))
+    arg = list(lines) if len(lines) > 1 else lines[0]
+    if container == "tuple":
+        arg = tuple(lines)
+    elif container == "generator":
+        arg = (l for l in list(lines))          # documented type of `lines`: str or any iterable of str
+    elif container == "dict-keys":
+        arg = {l: None for l in lines}.keys()
+    world.run(server.write_response(sink, code, arg, mode))
     return bytes(sink.data)
 
 
@@ -136,6 +143,18 @@ def work(item):
                 if mode and n < 2:
                     continue
                 raw = encode(w, server, code, list(lines), mode)
+                if len(payload) <= 3 and n <= 2 and len(set(lines)) == len(lines):
+                    # the same reply whatever kind of iterable the lines come in
+                    for container in ("tuple", "generator", "dict-keys"):
+                        try:
+                            other = encode(w, server, code, list(lines), mode, container)
+                        except Exception as exc:
+                            other = repr(exc).encode()
+                        if other != raw:
+                            part.violation({"kind": "reply-depends-on-the-container-of-its-lines", "container": container},
+                                           {"code": code, "lines": lines, "raw": raw.decode(), "other": other.decode("utf-8", "replace")[:200]},
+                                           replay={"multi": [code, list(lines), mode, []]})
+                            break
                 want = [(code, rstripped(expected_info(code, list(lines), mode)))]
                 segm = "double" if len(raw) <= 24 else "single"
                 for cuts in itertools.chain(seg_sets(len(raw), segm), [list(range(1, len(raw)))]):
@@ -247,7 +266,13 @@ def work(item):
             # the wait masks of Client.command: replies that agree with a wait mask are skipped - all of them, however
             # many - and the first one that does not is the answer; the stream stays in step for the next command
             from vf.fakeserver import FakeServer
-            for pre_codes, final, expected, wait in payload:
+            for entry in payload:
+                pre_codes, final, expected, wait = entry[:4]
+                kind_of = entry[4] if len(entry) > 4 else None
+                # masks may come in any container (a str is one mask)
+                conv = {None: lambda m: m, "set": lambda m: set([m] if isinstance(m, str) else m),
+                        "frozenset": lambda m: frozenset([m] if isinstance(m, str) else m),
+                        "list": lambda m: list([m] if isinstance(m, str) else m)}[kind_of]
                 raw = "".join(f"{c} wait\r\n" for c in pre_codes) + f"{final} done\r\n"
                 w2 = World()
                 try:
@@ -260,7 +285,7 @@ def work(item):
                         await c.connect("127.0.0.1", 2121)
                         await c.login()
                         try:
-                            code, info = await c.command("SITE x", expected, wait)
+                            code, info = await c.command("SITE x", conv(expected), conv(wait))
                             res.append((str(code), list(info)))
                         except a.StatusCodeError as exc:
                             res.append(("StatusCodeError", [str(x) for x in exc.received_codes]))
@@ -474,6 +499,12 @@ def build_items(tier):
         for n in range(0, 4):
             for pre in itertools.product(pres, repeat=n):
                 waits.append((list(pre), final, expected, wait))
+    for kind_of in ("set", "frozenset", "list"):
+        for wait, pres in (("1xx", ["150", "125"]), (("1xx", "426"), ["150", "426"])):
+            for n in range(0, 3):
+                for pre in itertools.product(pres, repeat=n):
+                    for final, expected in (("226", "2xx"), ("250", ("2xx", "3xx"))):
+                        waits.append((list(pre), final, expected, wait, kind_of))
     for i in range(0, len(waits), 40):
         items.append(("waits", waits[i:i + 40]))
     return items
